@@ -1,5 +1,6 @@
 import PyomaVerif.Props.C03E2E
 import PyomaVerif.Lemmas.Excitation
+import PyomaVerif.Props.C01Excite
 /-!
 # C03 — the per-setup rank condition (`CovSetup.gam`, `DatSetup.gam`) from the property's premises
 
@@ -13,7 +14,7 @@ block rows.  The setup's gain `g ≠ 0` only scales the reference output matrix.
 set_option linter.unusedVariables false
 
 namespace PV.C03Excite
-open PV PV.Mat PV.Cov PV.FreeVib PV.MsFreeVib PV.Excite PV.C03E2E Matrix Finset
+open PV PV.Mat PV.Cov PV.FreeVib PV.MsFreeVib PV.Excite PV.C03E2E PV.C01Excite Matrix Finset
 
 /-- **The `gam` field of a setup record from the property's premises.**  `Y` is the free response of
     `(A, g·C_g[refIds ++ mi], x0)` with the reference rows first; `OL` is a left inverse of the
@@ -40,4 +41,70 @@ theorem C03_setup_gam_of_premises {n : ℕ} (A Ainv : Matrix (Fin n) (Fin n) ℚ
   rw [this]
   rfl
 
+/-- **The `gam` field of a setup record from modal premises only**: `A` diagonalisable over `Cpx ℚ` with
+    pairwise distinct non-zero poles, this setup's initial state excites every mode, every mode is seen
+    by one of the (scaled) reference sensors, `br + 1 ≥ n` block rows and at least `n` averaged samples. -/
+theorem C03_setup_gam_of_modal {n : ℕ} (A : Matrix (Fin n) (Fin n) ℚ)
+    (Vm Vminv : Matrix (Fin n) (Fin n) (Cpx ℚ)) (d : Fin n → Cpx ℚ)
+    (hVm : Vm * Vminv = 1) (hAV : A.map ofR * Vm = Vm * diagonal d) (hd : Function.Injective d)
+    (hnz : ∀ i, d i ≠ 0)
+    (Cg : ℕ → Fin n → ℚ) (br : ℕ) (refIds mi : List ℕ) (g : ℚ) (x0 : Fin n → ℚ) (Y : Mat ℚ)
+    (s : ℚ) (hs : s ≠ 0) (hrows : Y.r = refIds.length + mi.length)
+    (hfree : IsFreeResponse A (fun a t => g * msC Cg (refIds ++ mi) a t) x0 Y)
+    (hexc : ∀ i, (Vminv *ᵥ (fun k => ofR (x0 k))) i ≠ 0)
+    (hobsRef : ∀ k : Fin n, ∃ b, b < (refPart Y refIds.length).r ∧
+      ((fun j => ofR (g * msC Cg (refIds ++ mi) b j)) ⬝ᵥ fun j => Vm j k) ≠ 0)
+    (hnp : n ≤ br + 1) (hnT : n ≤ Y.c - br - (br + 1) - 1) :
+    ∃ Γr : Matrix (Fin ((br + 1) * (refPart Y refIds.length).r)) (Fin n) ℚ,
+      gamMx A x0 (refPart Y refIds.length) br s Y.c ((br + 1) * (refPart Y refIds.length).r) * Γr = 1 := by
+  obtain ⟨Ainv, hA⟩ := C01_invertible_of_modal A Vm Vminv d hVm hAV hnz
+  obtain ⟨Xr, hX⟩ := C01_excited_of_modal A x0 Vm Vminv d hVm hAV hd hexc _ hnT
+  obtain ⟨OL, hO⟩ := C01_observable_of_modal (refPart Y refIds.length).r (br + 1) A
+    (fun a t => g * msC Cg (refIds ++ mi) a t) Vm Vminv d hVm hAV hd hobsRef hnp
+  exact C03_setup_gam_of_premises A Ainv hA Cg br refIds mi g x0 Y s hs hrows hfree Xr hX OL hO
+
+/-- a covariance-driven setup record assembled from modal premises instead of the `gam` hypothesis -/
+theorem CovSetup.of_modal {n : ℕ} {A : Matrix (Fin n) (Fin n) ℚ}
+    (Vm Vminv : Matrix (Fin n) (Fin n) (Cpx ℚ)) (d : Fin n → Cpx ℚ)
+    (hVm : Vm * Vminv = 1) (hAV : A.map ofR * Vm = Vm * diagonal d) (hd : Function.Injective d)
+    (hnz : ∀ i, d i ≠ 0)
+    {Cg : ℕ → Fin n → ℚ} {br N : ℕ} {refIds mi : List ℕ} {g : ℚ} {x0 : Fin n → ℚ} {Y : Mat ℚ} {s : ℚ}
+    {U V : Mat ℚ} {S sq : ℕ → ℚ} {P : Mat ℚ} (hg : g ≠ 0) (hs : s ≠ 0)
+    (hrows : Y.r = refIds.length + mi.length)
+    (hfree : IsFreeResponse A (fun a t => g * msC Cg (refIds ++ mi) a t) x0 Y)
+    (hexc : ∀ i, (Vminv *ᵥ (fun k => ofR (x0 k))) i ≠ 0)
+    (hobsRef : ∀ k : Fin n, ∃ b, b < (refPart Y refIds.length).r ∧
+      ((fun j => ofR (g * msC Cg (refIds ++ mi) b j)) ⬝ᵥ fun j => Vm j k) ≠ 0)
+    (hnp : n ≤ br + 1) (hnT : n ≤ Y.c - br - (br + 1) - 1)
+    (hsvd : SvdOf (hankMM Y (refPart Y refIds.length) br s) U V S N) (hsq : SqrtOf sq S N)
+    (hpinv : PinvMS (oRef br refIds.length mi.length (obsOf U sq N)) P (br * refIds.length) N) :
+    CovSetup A Cg br N refIds mi g x0 Y s U V S sq P where
+  hg := hg
+  rows := hrows
+  free := hfree
+  gam := C03_setup_gam_of_modal A Vm Vminv d hVm hAV hd hnz Cg br refIds mi g x0 Y s hs hrows hfree hexc
+    hobsRef hnp hnT
+  svd := hsvd
+  sqrt := hsq
+  pinv := hpinv
+
+/-! ## Non-vacuity: setup 0 of the instance of `Props/C03E2E.lean` (`A` = quarter-turn rotation, poles `±i`) -/
+namespace Ex
+open PV.C03E2E.Ex
+
+def Vm : Matrix (Fin 2) (Fin 2) (Cpx ℚ) :=
+  fun i j => if i = 0 then ⟨1, 0⟩ else if j = 0 then ⟨0, -1⟩ else ⟨0, 1⟩
+def Vminv : Matrix (Fin 2) (Fin 2) (Cpx ℚ) :=
+  fun i j => if j = 0 then ⟨1/2, 0⟩ else if i = 0 then ⟨0, 1/2⟩ else ⟨0, -1/2⟩
+def dm : Fin 2 → Cpx ℚ := fun i => if i = 0 then ⟨0, 1⟩ else ⟨0, -1⟩
+
+/-- all premises of `C03_setup_gam_of_modal` hold together for setup 0 (gain 1, reference DOF 1, roving
+    DOF 0, `br = 3`, 12 samples) -/
+example : ∃ Γr : Matrix (Fin ((3 + 1) * (refPart Y0 refIds.length).r)) (Fin 2) ℚ,
+    gamMx A x00 (refPart Y0 refIds.length) 3 1 Y0.c ((3 + 1) * (refPart Y0 refIds.length).r) * Γr = 1 :=
+  C03_setup_gam_of_modal A Vm Vminv dm (by decide +kernel) (by decide +kernel) (by decide +kernel)
+    (by decide +kernel) Cg 3 refIds [0] 1 x00 Y0 1 (by norm_num) rfl free0 (by decide +kernel)
+    (by decide +kernel) (by decide) (by decide)
+
+end Ex
 end PV.C03Excite
